@@ -19,7 +19,10 @@
 (*        __param_k3 set by relabeling, "" = untouched), inst, app, bad (a label      *)
 (*        whose name is not a valid Prometheus name: starts with a digit), tmp        *)
 (*        (a __tmp label), gapp (a label "app" carried by the target GROUP: the        *)
-(*        target's own label wins)                                                   *)
+(*        target's own label wins), lk1 (a PLAIN label whose name is that of the       *)
+(*        configured param, "k1"), sib (the group holds a second entry that            *)
+(*        Prometheus rejects - "noaddr": empty address, "badval": a label value that    *)
+(*        is not valid UTF-8 - and which must cost the group nothing else)              *)
 (* StripChangedParams = TRUE mirrors the code: the label of every CONFIGURED param is *)
 (* removed before shipping, also when relabeling changed its value.                   *)
 (***************************************************************************)
@@ -42,11 +45,12 @@ PP1(cfg, L) == IF L.p1 # "" THEN L.p1 ELSE IF cfg.k1 = "none" THEN "" ELSE "v1"
 QueryK1(cfg, p1) == IF p1 = "" THEN CfgK1(cfg)
                     ELSE IF CfgK1(cfg) = <<>> THEN <<p1>> ELSE <<p1>> \o Tail(CfgK1(cfg))
 Query(k1vals, p3) == (IF k1vals = <<>> THEN {} ELSE {<<"k1", k1vals>>}) \cup (IF p3 = "" THEN {} ELSE {<<"k3", <<p3>>>>})
-FinalLabels(job, inst, app, bad) ==
+FinalLabels(job, inst, app, bad, lk1) ==
   {<<"job", job>>, <<"instance", inst>>} \cup (IF app = "" THEN {} ELSE {<<"app", app>>}) \cup (IF bad = "" THEN {} ELSE {<<"1bad", bad>>})
+  \cup (IF lk1 = "" THEN {} ELSE {<<"k1", lk1>>})
 App(L) == IF L.app # "" THEN L.app ELSE L.gapp      \* the target's own label overrides the group's
 Plain(cfg, L) ==
-  [labels |-> FinalLabels("j", IF L.inst = "" THEN PAddr(cfg, L) ELSE L.inst, App(L), L.bad),
+  [labels |-> FinalLabels("j", IF L.inst = "" THEN PAddr(cfg, L) ELSE L.inst, App(L), L.bad, L.lk1),
    url    |-> [scheme |-> PScheme(cfg, L), host |-> PAddr(cfg, L), path |-> PPath(cfg, L),
                query |-> Query(QueryK1(cfg, PP1(cfg, L)), L.p3)]]
 
@@ -60,6 +64,7 @@ Shipped(cfg, L) ==
    inst |-> IF L.inst = "" THEN PAddr(cfg, L) ELSE L.inst,
    app |-> App(L),
    bad |-> L.bad,            \* shipped under the name __invalid_label_1bad
+   lk1 |-> L.lk1,            \* an ordinary label: the name of a param is "__param_k1", not "k1"
    tmp |-> L.tmp]
 \* the shard's Prometheus: job forced to http, params as configured, labels from the static group;
 \* the configured param's label is (re)set from the job's params; the repair rule maps the prefixed
@@ -67,7 +72,7 @@ Shipped(cfg, L) ==
 Sharded(cfg, L) ==
   LET s == Shipped(cfg, L)
       p1shard == IF cfg.k1 # "none" THEN "v1" ELSE s.p1       \* populateLabels sets __param_k1 from the config
-  IN [labels |-> FinalLabels("j", s.inst, s.app, s.bad),
+  IN [labels |-> FinalLabels("j", s.inst, s.app, s.bad, s.lk1),
       url    |-> [scheme |-> s.scheme, host |-> s.addr, path |-> s.path,
                   query |-> Query(QueryK1(cfg, p1shard), s.p3)]]
 
